@@ -6,7 +6,7 @@
 # afterwards (the shared build directory /tmp/fpmut/target is kept between invocations; remove it
 # with `tools/mutant.sh --clean`).
 set -u
-ROOT=/tmp/fpmut
+ROOT="${FPMUT_ROOT:-/tmp/fpmut}"
 if [ "${1:-}" = "--clean" ]; then
     git -C /repo worktree remove --force "$ROOT/repo" 2>/dev/null
     rm -rf "$ROOT"
